@@ -12,6 +12,7 @@ import (
 	"runtime/debug"
 	"strings"
 	"sync"
+	"syscall"
 	"time"
 )
 
@@ -282,16 +283,34 @@ func execChild(c Case) (res Result, err error) {
 				}
 				continue
 			case <-time.After(budget):
+				// The process does not answer (typically: the harness goroutine is starved by a
+				// goroutine explosion or the collector cannot finish). Ask the runtime for a
+				// goroutine dump (SIGQUIT) to name the function that dominates, then kill it.
+				_ = w.cmd.Process.Signal(syscall.SIGQUIT)
+				quit := time.After(20 * time.Second)
+			drain:
+				for {
+					select {
+					case _, ok := <-w.events:
+						if !ok {
+							break drain
+						}
+					case <-quit:
+						break drain
+					}
+				}
 				w.kill()
 				current = nil
+				stderr := w.stderr.String()
 				if lastI == setupPhase {
 					return Result{Setup: []string{"setup:worker-timeout-while-preparing-input"}, Dirty: true, Harness: true}, nil
 				}
+				sig := "C19/hang-past-deadline:" + hotFrame(stderr, lastRPC)
 				if lastWire != "" && lastWire != "ok" {
-					return Result{OutOfDomain: []string{"C19/hang-past-deadline:" + lastRPC}, Dirty: true}, nil
+					return Result{OutOfDomain: []string{sig}, Dirty: true}, nil
 				}
-				f := &Fail{Signature: "C19/hang-past-deadline:" + lastRPC, Timing: true, ReqIndex: lastI,
-					Msg: fmt.Sprintf("the server process did not answer within %v while request #%d (%s) was in flight (deadline %v); process killed\nstderr:\n%s", budget, lastI, lastRPC, reqDeadline, headTail(w.stderr.String(), 6000))}
+				f := &Fail{Signature: sig, Timing: true, ReqIndex: lastI,
+					Msg: fmt.Sprintf("the server process did not answer within %v while request #%d (%s) was in flight (deadline %v); %d goroutines in its dump; process killed\nstderr:\n%s", budget, lastI, lastRPC, reqDeadline, strings.Count(stderr, "\ngoroutine "), headTail(stderr, 8000))}
 				return Result{Fail: f, Dirty: true}, nil
 			}
 			break
